@@ -186,7 +186,7 @@ class Report:
         self.violations.append((path, no_failing_input, summary))
 
     def known_finding(self, kid, what):
-        if (kid, what) not in self.known:
+        if kid not in [k for k, _ in self.known]:
             self.known.append((kid, what))
 
     def finish(self):
